@@ -586,7 +586,7 @@ pub extern "C" fn tsrun_set_regexp_provider(
     if ctx.is_null() {
         return TsRunResult {
             ok: false,
-            error: ptr::null(),
+            error: c"NULL context".as_ptr(),
         };
     }
 
